@@ -74,7 +74,7 @@ PROPS["C01"] = dict(
 PROPS["C02"] = dict(
     # the update/absorb STEP harnesses of C01 are the chunking-independence lemma (absorb defined on the concatenated stream): run here too
     prefixes=["c02_", "c01_fixedbuf64_input_step", "c01_sha256_input_step", "c01_sha1_update_step", "c01_ripemd160_update_step", "c01_blake2s_update_step",
-              "c01_blake2b_update_shapes", "c01_sponge_process_step_rate16", "c01_t_fixedbuf128_input_step", "c01_t_sha512_input_step", "c01_t_sha256_input_step",
+              "c01_blake2b_update_shapes", "c01_blake2s_update_shapes", "c01_sponge_process_step_rate16", "c01_t_fixedbuf128_input_step", "c01_t_sha512_input_step", "c01_t_sha256_input_step",
               "c01_t_sha1_update_step", "c01_t_ripemd160_update_step", "c01_t_blake2s_update_step", "c01_t_blake2b_update_step", "c01_t_sponge_process_step"],
     level="model_checking",
     bounds="same step harnesses as C01 (prefix c01_: update step from an arbitrary state = absorb(alpha, chunk) defined on the concatenated stream; chunk lengths 0, 1, N-1, N, N+1, "
